@@ -1,6 +1,11 @@
 (* Conversions between OCaml strings/ints and the extracted Coq numbers. *)
 open Model
 
+(* Coq's String module / string type are extracted too; keep OCaml's in scope for the drivers *)
+module String = Stdlib.String
+type string = Stdlib.String.t
+module List = Stdlib.List
+
 let rec pos_of_int (n : int) : positive =
   if n = 1 then XH else if n land 1 = 0 then XO (pos_of_int (n lsr 1)) else XI (pos_of_int (n lsr 1))
 let z_of_int (n : int) : z = if n = 0 then Z0 else if n > 0 then Zpos (pos_of_int n) else Zneg (pos_of_int (-n))
